@@ -76,8 +76,10 @@ func (self *Compiler) compileStmt(node ast.AnalyzedStatement) {
 
 		self.insert(newOneStringInstruction(Opcode_Jump, self.CurrFn().CleanupLabel), node.Span())
 	case ast.BreakStatementKind:
+		self.leaveTryBlocks(self.currLoop(), node.Span())
 		self.insert(newOneStringInstruction(Opcode_Jump, self.currLoop().labelBreak), node.Span())
 	case ast.ContinueStatementKind:
+		self.leaveTryBlocks(self.currLoop(), node.Span())
 		self.insert(newOneStringInstruction(Opcode_Jump, self.currLoop().labelContinue), node.Span())
 	case ast.LoopStatementKind:
 		node := node.(ast.AnalyzedLoopStatement)
